@@ -6,6 +6,8 @@ import (
 	"reflect"
 	"sync"
 
+	structform "github.com/elastic/go-structform"
+
 	"github.com/elastic/go-structform/cborl"
 	"github.com/elastic/go-structform/gotype"
 	"github.com/elastic/go-structform/json"
@@ -26,8 +28,80 @@ type raceItem struct {
 	v reflect.Value
 }
 
-func racePipeline(items []raceItem) []string {
+// option values and user folders / unfolders: created once, handed to every goroutine
+// (they are inputs, like the values; each goroutine still builds its own instances from them)
+type raceA struct{ S string }
+type raceB struct{ S string }
+type raceOptTarget struct {
+	A raceA
+	B raceB
+	C string
+}
+
+var (
+	raceOptA  = gotype.Unfolders(func(to *raceA, s string) error { to.S = "A:" + s; return nil })
+	raceOptB  = gotype.Unfolders(func(to *raceB, s string) error { to.S = "B:" + s; return nil })
+	raceFoldO = gotype.Folders(func(v *raceA, vis structform.ExtVisitor) error { return vis.OnString("F:" + v.S) })
+)
+
+// raceOptions: instances configured through options and setters, on the goroutine's own instances
+func raceOptions(w int) []string {
 	var out []string
+	doc := map[string]interface{}{"a": "1", "b": "2", "c": "<3&>"}
+	run := func(name string, opts ...gotype.UnfoldOption) {
+		var t raceOptTarget
+		res := ""
+		func() {
+			defer func() {
+				if r := recover(); r != nil {
+					res = fmt.Sprint("PANIC ", r)
+				}
+			}()
+			u, err := gotype.NewUnfolder(&t, opts...)
+			if err != nil {
+				res = "SETUPERR"
+				return
+			}
+			if err := gotype.Fold(doc, u); err != nil {
+				res = "ERR"
+				return
+			}
+			res = fmt.Sprintf("%+v", t)
+		}()
+		out = append(out, name+":"+res)
+	}
+	run("optA+optB", raceOptA, raceOptB)
+	run("optA", raceOptA)
+	run("optB+optA", raceOptB, raceOptA)
+	run("none")
+	// JSON encoder settings differ from goroutine to goroutine
+	for _, html := range []bool{w%2 == 0, w%3 == 0} {
+		var buf bytes.Buffer
+		vs := json.NewVisitor(&buf)
+		vs.SetEscapeHTML(html)
+		vs.SetIgnoreInvalidFloat(w%2 == 1)
+		vs.SetExplicitRadixPoint(w%4 < 2)
+		it, err := gotype.NewIterator(vs, raceFoldO)
+		res := ""
+		if err != nil {
+			res = "SETUPERR"
+		} else if err := it.Fold(struct {
+			T *raceA
+			V raceA
+			S string
+			F float64
+		}{&raceA{"<p>"}, raceA{"&q"}, "a<b>&c", 2}); err != nil {
+			res = "ERR"
+		} else {
+			res = buf.String()
+		}
+		out = append(out, fmt.Sprintf("json(html=%v):%s", html, res))
+	}
+	return out
+}
+
+func racePipeline(items []raceItem, w int) []string {
+	out := raceOptions(w)
 	for _, item := range items {
 		iv := item.v.Interface()
 		for _, route := range []string{"direct", "json", "ubj", "cbor"} {
@@ -111,15 +185,15 @@ func raceMain(seed uint64, rounds, workers int) int {
 			go func(w int) {
 				defer wg.Done()
 				<-start
-				results[w] = racePipeline(items)
+				results[w] = racePipeline(items, w)
 			}(w)
 		}
 		close(start)
 		wg.Wait()
 		// the expected results: the same pipelines run alone, AFTER the concurrent phase, so that the
 		// first use of every type (compilation of its folder / unfolder) happens inside the goroutines
-		want := racePipeline(items)
 		for w := 0; w < workers; w++ {
+			want := racePipeline(items, w)
 			if len(results[w]) != len(want) {
 				fmt.Printf("MISMATCH round=%d worker=%d: %d results, expected %d\n", round, w, len(results[w]), len(want))
 				bad++
